@@ -148,6 +148,11 @@ def run(ctx):
              "a refused name rolls back the names registered before it", floor=8)
     service_forms(ctx, program, "R12.8")
 
+    ctx.rule("R12.9", "a @service declared at run time stays reachable for removal: its manager is recorded in the context before start() registers the name; "
+             "no second holder's finaliser removes the service of a function that is still bound", floor=4)
+    from .c09 import single_owner_rule, tracked_before_start_rule
+    tracked_before_start_rule(ctx, program, "R12.9")
+    single_owner_rule(ctx, program, "R12.9")
     ctx.rule("R12.3", "service handlers pass trigger_type='service', the call context and the call data, run the function in its own task and return its result", floor=2)
     for uid in ("eval.py::EvalFunc.trigger_init.pyscript_service_factory.pyscript_service_handler", "decorators/service.py::ServiceDecorator._service_callback"):
         f = program.func(uid)
